@@ -1136,6 +1136,10 @@ def _run(res, tier, seed, proofs_ok):
         if key in swept:
             continue
         n_sweep += 1
+        if mn == 'p' and len(prm) == 9 and in_p3_band(prm):
+            # inside the thresholds the code follows the thresholded rule
+            # (C02_P_three_points_thresholded); counted for the evidence
+            res.count('sweep:p3-inside-the-band (oracle uses the band)')
         status, detail = sweep_card(rng, mn, prm,
                                     30 if quick else 120, 6 if quick else 25)
         swept[key] = status
